@@ -195,6 +195,9 @@ EXPLAIN_SCENARIOS = [
     # accepting path too: a ChainMap over an auto-vivifying first map (ChainMap.__getitem__ probes every map with map[key])
     ('ChainMap[str, int]', "ChainMap(defaultdict(int), {'a': 1})"), ('Mapping[str, int]', "ChainMap(defaultdict(int), {'a': 1})"), ('MutableMapping[str, int]', "ChainMap(defaultdict(int), {'a': 1})"),
     ('tuple[Mapping[str, int], int]', "(ChainMap(defaultdict(int), {'a': 1}), 'bad')"), ('dict[str, int]', "defaultdict(int, {'a': 1})"), ('Mapping[str, list[int]]', "defaultdict(list, {'a': [1]})"),
+    # auto-vivifying mappings against the quasi-iterable hints (their KEYS are the items): as the culprit and as a conforming sibling
+    ('Iterable[str]', "defaultdict(int, {b'a': 1, b'b': 2, b'c': 3})"), ('Container[str]', "defaultdict(list, {b'a': [1], b'b': []})"), ('Reversible[str]', "defaultdict(int, {b'a': 1, b'b': 2})"),
+    ('Collection[str]', "defaultdict(int, {b'a': 1, b'b': 2})"), ('tuple[Iterable[str], int]', "(defaultdict(int, {'a': 1, 'b': 2}), 'bad')"), ('list[Iterable[str]]', "[defaultdict(int, {b'a': 1, b'b': 2})]"),
 ]
 EXPLAIN_SRC = """
 from pyvc import replaylib, shapes
